@@ -29,6 +29,7 @@ func main() {
 	flag.BoolVar(&keepQueries, "keep", false, "with -dump: keep the SMT files of discharged obligations as well")
 	cost := flag.Bool("cost", false, "also produce the cost/single-visit obligations when -funcs is given")
 	frame := flag.Bool("frame", false, "run the frame analysis (C14) instead of the contract verification")
+	withFrame := flag.Bool("withframe", false, "run the frame analysis in addition to the contract verification")
 	flag.Parse()
 
 	t0 := time.Now()
@@ -114,6 +115,9 @@ func main() {
 	}
 	if *list {
 		return
+	}
+	if *withFrame && !*frame {
+		results = append(results, e.frameCheck())
 	}
 	tgen := time.Since(t0).Seconds()
 	dischargeAll(obs, dir, *timeout, *agree, runtime.NumCPU())
